@@ -206,3 +206,27 @@ Theorem C15t_all : forall ops, good ops -> v15 (mon_all (model_history ops)) = t
 Proof. intros ops H. apply (good_vgood false ops H). discriminate. Qed.
 Theorem C19_all : forall ops, good ops -> band_free ops -> v19 (mon_all (model_history ops)) = true.
 Proof. intros ops H Hb. destruct (good_vgood true ops H (fun _ => Hb)) as (_ & _ & _ & _ & _ & H19). auto. Qed.
+
+(** ** strict progress of the drain loop, on the model alone: a run at the instant announced by
+    next_expiry advances Core::now to it, and afterwards every queued key is strictly later than
+    the key that was announced (its entry was fired or re-queued strictly later) *)
+Theorem run_at_next_expiry_progress s n t :
+  TInv s -> counters_ok s n -> n < HMAX -> next_expiry s = Some (Some t) -> t < TMAX ->
+  exists s' f e1 q, queue s = e1 :: q /\ tstep s (ORun t) = Some (s', RFired f) /\ TInv s' /\
+    cnow s < t /\ cnow s' = t /\
+    forall y, In y (queue s') -> Tof (now s) (e_wt e1) < Tof (now s') (e_wt y).
+Proof.
+  intros I C Hn Ene Ht. pose proof (next_expiry_ok s I) as Eok.
+  destruct (queue s) as [|e1 q] eqn:Eq; [rewrite Eok in Ene; discriminate|]. rewrite Eok in Ene. injection Ene as Et.
+  destruct (next_expiry_after_now s I) as (r & E2 & _ & Hlt). rewrite Eok in E2. injection E2 as <-.
+  specialize (Hlt _ eq_refl). rewrite Et in Hlt.
+  destruct (advance_ok s t n I C Hn ltac:(lia)) as (s' & f & E & I' & _ & Ec & Enow).
+  exists s', f, e1, q. split; [reflexivity|]. split.
+  { cbn [tstep]. destruct (Z.gtb_spec t (cnow s)) as [_|?]; [|lia]. rewrite E. reflexivity. }
+  split; [assumption|split; [assumption|split; [assumption|]]].
+  intros y Hy. pose proof (i_entries s' I') as F. rewrite Forall_forall in F.
+  destruct (entry_T_range (now s') y (TInv_now_nonneg s' I') (F y Hy)) as [T1 _].
+  pose proof (i_entries s I) as F1. rewrite Eq in F1. inversion F1 as [|? ? He1 _]; subst.
+  destruct (entry_T_range (now s) e1 (TInv_now_nonneg s I) He1) as [T2 _]. destruct He1 as (_ & _ & _ & Hl1).
+  pose proof (floor_inst_ge (Tof (now s) (e_wt e1)) ltac:(pose proof (TInv_now_nonneg s I); lia) Hl1). lia.
+Qed.
